@@ -17,7 +17,14 @@ type ReplayVal struct {
 	Val  uint64 `json:"val"`
 }
 
+// PreCall: a harness run before the main one in the same process state (history harnesses).
+type PreCall struct {
+	Harness string `json:"harness"`
+	Shape   []int  `json:"shape"`
+}
+
 type Finding struct {
+	Pre     []PreCall   `json:"pre,omitempty"`
 	Harness string      `json:"harness"`
 	Pkg     string      `json:"pkg"`
 	Shape   []int       `json:"shape"`
@@ -77,6 +84,8 @@ type Exec struct {
 	harness *ssa.Function
 	shape   []int
 	violTotal int
+	pre       []PreCall
+	preFns    map[*ssa.Function]bool
 	violSeen map[string]int
 	aesApps  map[*Term]bool
 	b64seq   int
@@ -93,7 +102,7 @@ func deref(t types.Type) types.Type {
 
 // ---------- driver for one work item ----------
 
-func (ex *Exec) RunItem(h *ssa.Function, shape []int) (out *ItemResult) {
+func (ex *Exec) RunItem(h *ssa.Function, shape []int, pre []PreCall) (out *ItemResult) {
 	ex.res = &ItemResult{Harness: h.Name(), Pkg: h.Pkg.Pkg.Path(), Shape: shape, Reached: map[string]int{}, Funcs: map[string]bool{}}
 	ex.consts = map[*ssa.Const]Value{}
 	ex.violSeen = map[string]int{}
@@ -101,6 +110,8 @@ func (ex *Exec) RunItem(h *ssa.Function, shape []int) (out *ItemResult) {
 	ex.aesApps = map[*Term]bool{}
 	ex.harness = h
 	ex.shape = shape
+	ex.pre = pre
+	ex.preFns = map[*ssa.Function]bool{}
 	ex.work = nil
 	defer func() {
 		if r := recover(); r != nil {
@@ -126,6 +137,24 @@ func (ex *Exec) RunItem(h *ssa.Function, shape []int) (out *ItemResult) {
 		}
 	}
 	ex.pushFrame(st, h, args, nil, false)
+	// history: the pre harnesses run (in order) after package initialisation and before the main harness
+	for i := len(pre) - 1; i >= 0; i-- {
+		pf := h.Pkg.Func(pre[i].Harness)
+		if pf == nil || len(pf.Params) != len(pre[i].Shape) {
+			throwf("pre harness %s not found / wrong arity", pre[i].Harness)
+		}
+		pa := make([]Value, len(pre[i].Shape))
+		for j, v := range pre[i].Shape {
+			if b, ok := pf.Params[j].Type().Underlying().(*types.Basic); ok && b.Kind() == types.Bool {
+				pa[j] = ex.ctx.Bool(v != 0)
+			} else {
+				pa[j] = ex.ctx.BVConst(64, uint64(int64(v)))
+			}
+		}
+		ex.preFns[pf] = true
+		ex.pushFrame(st, pf, pa, nil, true)
+		st.top().isPre = true
+	}
 	if initFn := h.Pkg.Func("init"); initFn != nil {
 		ex.pushFrame(st, initFn, nil, nil, true)
 	}
@@ -501,6 +530,19 @@ func (ex *Exec) ufGeneric(st *State) []*Term {
 	return out
 }
 
+// inPre: is a pre harness of the item still running on this path?
+func (ex *Exec) inPre(st *State) bool {
+	if len(ex.preFns) == 0 {
+		return false
+	}
+	for _, fr := range st.frames {
+		if fr.isPre {
+			return true
+		}
+	}
+	return false
+}
+
 func (ex *Exec) posOf(st *State) string {
 	fr := st.frames[len(st.frames)-1]
 	if fr.ip < len(fr.block.Instrs) {
@@ -534,7 +576,7 @@ func (ex *Exec) record(st *State, kind, label, knownID string, vals []ReplayVal)
 	if ex.spec != nil {
 		panic(specAbort{})
 	}
-	f := Finding{Harness: ex.harness.Name(), Pkg: ex.res.Pkg, Shape: ex.shape, Kind: kind, Label: label, Pos: ex.posOf(st), KnownID: knownID, Values: vals, MapDesc: ex.cfg.MapDesc}
+	f := Finding{Pre: ex.pre, Harness: ex.harness.Name(), Pkg: ex.res.Pkg, Shape: ex.shape, Kind: kind, Label: label, Pos: ex.posOf(st), KnownID: knownID, Values: vals, MapDesc: ex.cfg.MapDesc}
 	key := kind + "|" + label + "|" + knownID
 	ex.violSeen[key]++
 	if kind != "known" {
@@ -1290,7 +1332,7 @@ func (ex *Exec) doReturn(st *State, fr *Frame, x *ssa.Return) {
 	if len(st.frames) == 0 {
 		return
 	}
-	if isDefer && len(st.frames) == 1 && fr.fn.Name() == "init" && st.globalOf == nil {
+	if isDefer && len(st.frames) == 1+len(ex.pre) && fr.fn.Name() == "init" && st.globalOf == nil {
 		ex.markGlobals(st)
 	}
 	ex.finishCall(st, res, isDefer)
